@@ -10,7 +10,13 @@
 // per-client schedule, written to YAML and reloaded across restarts; the id
 // list is also changed through the deprecated list-only handler (POST
 // /control/blocked_services/set), which carries no schedule and must leave the
-// configured one alone.
+// configured one alone.  Admin requests of the blocked-services family (update,
+// legacy set, get, list, rejected updates) and a DNS query are also run
+// OVERLAPPED, as tasks of the seeded cooperative scheduler (mode D: the tree is
+// built from a copy whose lock operations are scheduling points; request
+// bodies may arrive in pieces with a scheduling point before each): what the
+// overlapped requests were answered and what GET get reports afterwards must be
+// the result of ONE serial order of them.
 //
 // The reference is three lines: convert the instant to the zone with package
 // time (the trusted zone database), take (weekday, hour, minute, second), and
@@ -22,8 +28,10 @@ import (
 	"context"
 	"encoding/json"
 	"fmt"
+	"io"
 	"math"
 	"net/http"
+	"net/http/httptest"
 	"net/netip"
 	"os"
 	"path/filepath"
@@ -42,6 +50,7 @@ import (
 	"github.com/AdguardTeam/AdGuardHome/verifsim/env"
 	"github.com/AdguardTeam/AdGuardHome/verifsim/kernel"
 	"github.com/AdguardTeam/AdGuardHome/verifsim/model"
+	"github.com/AdguardTeam/AdGuardHome/verifsim/sched"
 	"github.com/AdguardTeam/urlfilter/rules"
 	"github.com/miekg/dns"
 	"gopkg.in/yaml.v3"
@@ -80,7 +89,7 @@ type Bad struct {
 // Op is one generated operation; it is executed when the simulated clock shows
 // AtMs (Unix milliseconds).
 type Op struct {
-	Kind string `json:"k"` // query put legacy_set bad_set bad_put client_set bad_client bad_yaml restart
+	Kind string `json:"k"` // query put legacy_set bad_set bad_put client_set bad_client bad_yaml restart par
 	AtMs int64  `json:"at"`
 	Aim  string `json:"aim,omitempty"` // what the generator aimed the instant at (log only)
 	Who  string `json:"who,omitempty"` // query: global | client
@@ -90,6 +99,25 @@ type Op struct {
 	// IDs is the list of the deprecated list-only API (legacy_set); it may be
 	// empty.
 	IDs []string `json:"ids,omitempty"`
+	// par: the requests that overlap, the scheduler's seed and its preemption
+	// probability in percent.
+	Par  []Part `json:"par,omitempty"`
+	Seed uint64 `json:"seed,omitempty"`
+	Pct  int    `json:"pct,omitempty"`
+}
+
+// Part is one of the overlapped requests of a par operation.
+type Part struct {
+	Kind string   `json:"k"` // put legacy_set bad_put get list query
+	S    *Sched   `json:"sched,omitempty"`
+	IDs  []string `json:"ids,omitempty"`
+	Bad  *Bad     `json:"bad,omitempty"`
+	Who  string   `json:"who,omitempty"`
+	Name string   `json:"name,omitempty"`
+	// Chunk > 0: the request body reaches the handler in pieces of at most
+	// this many bytes, with a scheduling point before each piece (a slow
+	// upload); 0: at once.
+	Chunk int `json:"chunk,omitempty"`
 }
 
 // Scenario is one case.
@@ -429,6 +457,78 @@ func genBadYAML(t *rapid.T) (form, start, end string) {
 	}
 }
 
+// genBadPut draws the invalid document of a PUT update that must be rejected.
+func genBadPut(t *rapid.T, zoneName string) *Bad {
+	b := &Bad{Zone: zoneName, Day: rapid.IntRange(0, 6).Draw(t, "bad_day")}
+	if rapid.IntRange(0, 7).Draw(t, "bad_raw") == 0 {
+		b.Form = "broken-document"
+		b.Raw = rapid.SampledFrom([]string{
+			`{"ids":["9gag"],"schedule":{"time_zone":"UTC","mon":{"start":0,"end":`,
+			`{"ids":["9gag"],"schedule":{"time_zone":"UTC","mon":{"start":"one","end":60000}}}`,
+			`{"ids":["9gag"],"schedule":{"time_zone":"UTC","mon":[0,60000]}}`,
+			`{"ids":["9gag"],"schedule":[]}`,
+			`{"ids":["9gag"],"schedule":{"time_zone":"UTC","mon":{"start":1e400,"end":60000}}}`,
+		}).Draw(t, "bad_doc")
+	} else {
+		b.Form, b.Start, b.End = genBadJSON(t)
+	}
+	return b
+}
+
+var (
+	legacyLists = [][]string{{"9gag"}, {"4chan"}, {"9gag", "4chan"}, {"4chan", "9gag"}, {}}
+	// The first overlapped request is always one that changes the
+	// configuration; the others are drawn from the whole family.
+	parWrites = []string{"put", "legacy_set"}
+	parKinds  = []string{"put", "legacy_set", "put", "legacy_set", "get", "list", "query", "bad_put", "query"}
+	parChunks = []int{0, 0, 5, 32, 128}
+)
+
+// genPar draws 2-4 requests of the blocked-services family (at most one of
+// them a DNS query) that are in progress at the same time.
+func genPar(t *rapid.T, zn func() string, cur *[2]*Sched) Op {
+	op := Op{Kind: "par", Seed: rapid.Uint64().Draw(t, "par_seed"), Pct: rapid.SampledFrom([]int{20, 50, 80}).Draw(t, "par_pct")}
+	n := rapid.IntRange(2, 4).Draw(t, "par_n")
+	hasQuery := false
+	for j := 0; j < n; j++ {
+		kinds := parKinds
+		if j == 0 {
+			kinds = parWrites
+		}
+		p := Part{Kind: rapid.SampledFrom(kinds).Draw(t, "par_kind")}
+		if p.Kind == "query" && hasQuery {
+			p.Kind = "get"
+		}
+		switch p.Kind {
+		case "put":
+			s := genSched(t, zn())
+			p.S = &s
+			p.Chunk = rapid.SampledFrom(parChunks).Draw(t, "par_chunk")
+			// Which of the overlapped updates wins is the scheduler's business;
+			// the generator aims the following instants at the last one drawn.
+			cur[0] = &s
+		case "legacy_set":
+			p.IDs = rapid.SampledFrom(legacyLists).Draw(t, "legacy_ids")
+			p.Chunk = rapid.SampledFrom(parChunks).Draw(t, "par_chunk")
+			ns := *cur[0]
+			ns.IDs = p.IDs
+			cur[0] = &ns
+		case "bad_put":
+			p.Bad = genBadPut(t, zn())
+			p.Chunk = rapid.SampledFrom(parChunks).Draw(t, "par_chunk")
+		case "query":
+			hasQuery = true
+			p.Who = "global"
+			if rapid.IntRange(0, 3).Draw(t, "who") == 0 {
+				p.Who = "client"
+			}
+			p.Name = rapid.SampledFrom(queryNames).Draw(t, "qname")
+		}
+		op.Par = append(op.Par, p)
+	}
+	return op
+}
+
 func genConfigOp(t *rapid.T, poolNames []string, cur *[2]*Sched) Op {
 	zn := func() string { return rapid.SampledFrom(poolNames).Draw(t, "op_zone") }
 	switch k := rapid.IntRange(0, 99).Draw(t, "config_kind"); {
@@ -439,7 +539,7 @@ func genConfigOp(t *rapid.T, poolNames []string, cur *[2]*Sched) Op {
 	case k < 30:
 		// The deprecated list-only API: it carries service ids and nothing else,
 		// so the schedule the generator aims at stays the current one.
-		ids := rapid.SampledFrom([][]string{{"9gag"}, {"4chan"}, {"9gag", "4chan"}, {"4chan", "9gag"}, {}}).Draw(t, "legacy_ids")
+		ids := rapid.SampledFrom(legacyLists).Draw(t, "legacy_ids")
 		ns := *cur[0]
 		ns.IDs = ids
 		cur[0] = &ns
@@ -452,26 +552,15 @@ func genConfigOp(t *rapid.T, poolNames []string, cur *[2]*Sched) Op {
 		s := genSched(t, zn())
 		cur[1] = &s
 		return Op{Kind: "client_set", S: &s}
-	case k < 62:
-		b := &Bad{Zone: zn(), Day: rapid.IntRange(0, 6).Draw(t, "bad_day")}
-		if rapid.IntRange(0, 7).Draw(t, "bad_raw") == 0 {
-			b.Form = "broken-document"
-			b.Raw = rapid.SampledFrom([]string{
-				`{"ids":["9gag"],"schedule":{"time_zone":"UTC","mon":{"start":0,"end":`,
-				`{"ids":["9gag"],"schedule":{"time_zone":"UTC","mon":{"start":"one","end":60000}}}`,
-				`{"ids":["9gag"],"schedule":{"time_zone":"UTC","mon":[0,60000]}}`,
-				`{"ids":["9gag"],"schedule":[]}`,
-				`{"ids":["9gag"],"schedule":{"time_zone":"UTC","mon":{"start":1e400,"end":60000}}}`,
-			}).Draw(t, "bad_doc")
-		} else {
-			b.Form, b.Start, b.End = genBadJSON(t)
-		}
-		return Op{Kind: "bad_put", Bad: b}
-	case k < 70:
+	case k < 54:
+		return genPar(t, zn, cur)
+	case k < 68:
+		return Op{Kind: "bad_put", Bad: genBadPut(t, zn())}
+	case k < 74:
 		b := &Bad{Zone: zn(), Day: rapid.IntRange(0, 6).Draw(t, "bad_day")}
 		b.Form, b.Start, b.End = genBadJSON(t)
 		return Op{Kind: "bad_client", Bad: b}
-	case k < 80:
+	case k < 82:
 		b := &Bad{Zone: zn(), Day: rapid.IntRange(0, 6).Draw(t, "bad_day")}
 		b.Form, b.Start, b.End = genBadYAML(t)
 		return Op{Kind: "bad_yaml", Bad: b}
@@ -633,6 +722,10 @@ type runner struct {
 	svcRules map[string][]*rules.NetworkRule
 	locs     map[string]*time.Location
 	modified int
+	// routes: the admin handlers of the running node by "METHOD path".
+	routes map[string]http.HandlerFunc
+	// abandon: a deadlock was found; the parked tasks hold the node's locks.
+	abandon bool
 }
 
 func (r *runner) loc(name string) (*time.Location, error) {
@@ -729,12 +822,19 @@ func (r *runner) startFromYAML(text []byte, what string) error {
 		return err
 	}
 	r.n = n
+	r.routes = map[string]http.HandlerFunc{}
+	for _, rt := range n.Mux.Routes() {
+		r.routes[rt.Method+" "+rt.Path] = rt.Handler
+	}
 	r.modified = int(n.Modified.Load())
 	kernel.Wait()
 	return nil
 }
 
 func (r *runner) stop() {
+	if r.abandon {
+		return
+	}
 	if r.n != nil {
 		r.n.Close()
 		r.n = nil
@@ -1072,6 +1172,369 @@ func (r *runner) mustBeInvalidJSON(b *Bad) error {
 	return nil
 }
 
+// ---- overlapped requests (mode D) ------------------------------------------------
+
+// pieceReader is a request body that arrives in pieces of at most chunk bytes;
+// before each piece other tasks of the scheduler may run (a slow upload).
+// Outside a scheduler run it is an ordinary reader.
+type pieceReader struct {
+	b     []byte
+	chunk int
+}
+
+func (p *pieceReader) Read(dst []byte) (n int, err error) {
+	if len(p.b) == 0 {
+		return 0, io.EOF
+	}
+	sched.Yield()
+	n = min(p.chunk, len(p.b), len(dst))
+	copy(dst, p.b[:n])
+	p.b = p.b[n:]
+	return n, nil
+}
+
+// send is Mux.Do with a body that may arrive in pieces.
+func (r *runner) send(method, path string, body []byte, chunk int) (code int, resp []byte, err error) {
+	if chunk <= 0 || len(body) == 0 {
+		return r.n.Mux.Do(method, path, body)
+	}
+	h := r.routes[method+" "+path]
+	if h == nil {
+		return 0, nil, fmt.Errorf("harness: no route %s %s", method, path)
+	}
+	req := httptest.NewRequest(method, path, &pieceReader{b: body, chunk: chunk}).WithContext(context.Background())
+	req.Header.Set("Content-Type", "application/json")
+	rec := httptest.NewRecorder()
+	defer func() {
+		if v := recover(); v != nil {
+			err = &env.HandlerPanic{Route: method + " " + path, Value: v}
+		}
+	}()
+	h(rec, req)
+	return rec.Code, rec.Body.Bytes(), nil
+}
+
+// partOut is what one overlapped request was answered.
+type partOut struct {
+	code    int
+	body    []byte
+	err     error
+	blocked bool // query
+	viol    error
+}
+
+func badPutBody(b *Bad) string {
+	if b.Raw != "" {
+		return b.Raw
+	}
+	return fmt.Sprintf(`{"ids":["4chan"],"schedule":%s}`, badScheduleJSON(b))
+}
+
+// ask sends one query and says whether it was answered locally (blocked) or
+// forwarded; it does not wait for quiescence (it also runs as a task).
+func (r *runner) ask(i int, addr, name string) (blocked bool, v error) {
+	rep := r.n.Do(&dnsnode.Query{Proto: "udp", Addr: netip.AddrPortFrom(netip.MustParseAddr(addr), 40000), Name: name, Qtype: dns.TypeA})
+	if rep.WireErr != nil || rep.Msg == nil {
+		return false, kernel.Violationf("no-reply", "op %d: %s from %s: no usable reply (err=%v wire=%v)", i, name, addr, rep.Err, rep.WireErr)
+	}
+	switch {
+	case len(rep.Exchanges) == 0 && !hasMarker(rep.Msg):
+		return true, nil
+	case len(rep.Exchanges) == 1 && hasMarker(rep.Msg):
+		return false, nil
+	}
+	return false, kernel.Violationf("incoherent-reply", "op %d: %s from %s: %d upstream exchange(s) but reply %v", i, name, addr, len(rep.Exchanges), rep.Msg.Answer)
+}
+
+// wantBlocked is the statement applied to one configuration at one instant.
+func (r *runner) wantBlocked(s *Sched, loc *time.Location, name string, now time.Time) bool {
+	for _, id := range s.IDs {
+		if model.ServiceMatch(r.svcRules[id], name) {
+			return !pausedAt(loc, s.Week, now)
+		}
+	}
+	return false
+}
+
+type getResp struct {
+	Schedule json.RawMessage `json:"schedule"`
+	IDs      []string        `json:"ids"`
+}
+
+// permutations calls f with every order of 0..n-1 (lexicographic) until f
+// returns true.
+func permutations(n int, f func([]int) bool) bool {
+	perm := make([]int, 0, n)
+	used := make([]bool, n)
+	var rec func() bool
+	rec = func() bool {
+		if len(perm) == n {
+			return f(perm)
+		}
+		for i := 0; i < n; i++ {
+			if used[i] {
+				continue
+			}
+			used[i] = true
+			perm = append(perm, i)
+			if rec() {
+				return true
+			}
+			perm = perm[:len(perm)-1]
+			used[i] = false
+		}
+		return false
+	}
+	return rec()
+}
+
+func describePart(p *Part) string {
+	switch p.Kind {
+	case "put":
+		return fmt.Sprintf("PUT update %v (body in pieces of %d)", *p.S, p.Chunk)
+	case "legacy_set":
+		return fmt.Sprintf("POST set %v (body in pieces of %d)", p.IDs, p.Chunk)
+	case "bad_put":
+		return fmt.Sprintf("PUT update, invalid: %s (body in pieces of %d)", p.Bad.Form, p.Chunk)
+	case "get":
+		return "GET get"
+	case "list":
+		return "GET list"
+	}
+	return fmt.Sprintf("query %s from %s", p.Name, p.Who)
+}
+
+// par runs the requests of op as concurrent tasks.  Each of them takes effect
+// at one moment between its start and its end (the statement knows schedules
+// and instants, not requests in pieces), so what they were answered and the
+// configuration afterwards must be what ONE order of them gives: an update
+// replaces ids and schedule, the list-only set replaces the ids, a rejected
+// update changes nothing, a read reports the configuration of its moment, and
+// a query is blocked or passed by the configuration of its moment.
+func (r *runner) par(i int, op Op) error {
+	c := r.c
+	now := time.Now()
+	parts := op.Par
+	outs := make([]partOut, len(parts))
+	names := make([]string, len(parts))
+	fns := make([]func(), len(parts))
+	for j := range parts {
+		p, o := &parts[j], &outs[j]
+		names[j] = p.Kind
+		switch p.Kind {
+		case "put":
+			body, _ := json.Marshal(map[string]any{"ids": p.S.IDs, "schedule": schedJSON(p.S)})
+			fns[j] = func() {
+				o.code, o.body, o.err = r.send("PUT", "/control/blocked_services/update", body, p.Chunk)
+			}
+		case "legacy_set":
+			ids := p.IDs
+			if ids == nil {
+				ids = []string{}
+			}
+			body, _ := json.Marshal(ids)
+			fns[j] = func() {
+				o.code, o.body, o.err = r.send("POST", "/control/blocked_services/set", body, p.Chunk)
+			}
+		case "bad_put":
+			if p.Bad.Raw == "" {
+				if err := r.mustBeInvalidJSON(p.Bad); err != nil {
+					return err
+				}
+			}
+			body := []byte(badPutBody(p.Bad))
+			fns[j] = func() {
+				o.code, o.body, o.err = r.send("PUT", "/control/blocked_services/update", body, p.Chunk)
+			}
+		case "get":
+			fns[j] = func() { o.code, o.body, o.err = r.send("GET", "/control/blocked_services/get", nil, 0) }
+		case "list":
+			fns[j] = func() { o.code, o.body, o.err = r.send("GET", "/control/blocked_services/list", nil, 0) }
+		case "query":
+			addr := globalAddr
+			if p.Who == "client" {
+				addr = clientAddr
+			}
+			fns[j] = func() { o.blocked, o.viol = r.ask(i, addr, p.Name) }
+		default:
+			return fmt.Errorf("harness: unknown overlapped request %q", p.Kind)
+		}
+	}
+	// The clock stands still while the tasks run: the simulated resolver
+	// answers at once, after a scheduling point.
+	r.up.OnExchange = func() { sched.Yield() }
+	res := sched.Run(op.Seed, op.Pct, names, fns)
+	r.up.OnExchange = nil
+	c.Fault("overlapped_admin_requests")
+	c.Probes["sched_steps"] += res.Steps
+	c.Probes["sched_switches"] += res.Switches
+	if res.Deadlock != "" {
+		r.abandon = true
+		return kernel.Violationf("deadlock: "+res.Deadlock, "op %d: %d overlapped blocked-services requests, schedule seed %d: every task waits for a lock:\n%s", i, len(parts), op.Seed, res.Detail)
+	}
+	kernel.Wait()
+
+	// What each request was answered, by itself.
+	var log []string
+	for j := range parts {
+		p, o := &parts[j], &outs[j]
+		if o.err != nil {
+			if hp, ok := o.err.(*env.HandlerPanic); ok {
+				return kernel.Violationf("api-panic", "op %d: overlapped %s: %v", i, describePart(p), hp)
+			}
+			return o.err
+		}
+		if o.viol != nil {
+			return o.viol
+		}
+		switch p.Kind {
+		case "put":
+			log = append(log, fmt.Sprintf("put/%d->%d", p.Chunk, o.code))
+			if o.code != http.StatusOK {
+				return kernel.Violationf("valid-schedule-rejected", "op %d: overlapped %s -> %d %s", i, describePart(p), o.code, o.body)
+			}
+			c.Fault("live_schedule_change")
+		case "legacy_set":
+			log = append(log, fmt.Sprintf("legacy_set%v/%d->%d", p.IDs, p.Chunk, o.code))
+			if o.code != http.StatusOK {
+				return kernel.Violationf("valid-list-rejected", "op %d: overlapped %s -> %d %s", i, describePart(p), o.code, o.body)
+			}
+			c.Fault("legacy_list_change")
+		case "bad_put":
+			log = append(log, fmt.Sprintf("bad_put(%s)/%d->%d", p.Bad.Form, p.Chunk, o.code))
+			c.Fault("invalid_schedule_submitted")
+			if o.code < 400 || o.code > 499 {
+				class := "invalid-range-accepted"
+				if p.Bad.Raw != "" {
+					class = "broken-document-accepted"
+				}
+				return kernel.Violationf(class, "op %d: overlapped PUT %s (%s) -> %d %s", i, badPutBody(p.Bad), p.Bad.Form, o.code, o.body)
+			}
+		case "get", "list":
+			log = append(log, fmt.Sprintf("%s->%d %s", p.Kind, o.code, bytes.TrimSpace(o.body)))
+			if o.code != http.StatusOK {
+				return kernel.Violationf("json-roundtrip-changed", "op %d: overlapped %s -> %d %s", i, describePart(p), o.code, o.body)
+			}
+		case "query":
+			log = append(log, fmt.Sprintf("query %s %s->blocked=%v", p.Who, p.Name, o.blocked))
+			if p.Who == "client" {
+				// Requests about the global configuration do not concern the
+				// client's own schedule.
+				if want := r.wantBlocked(&r.cli.s, r.cli.loc, p.Name, now); o.blocked != want {
+					return kernel.Violationf("pause-mismatch", "op %d: query %s from the client with its own schedule %v at %s, overlapped with requests about the global one: must be %s, was %s",
+						i, p.Name, r.cli.s, now.UTC().Format(time.RFC3339Nano), blockedWord(want), blockedWord(o.blocked))
+				}
+			}
+		}
+	}
+
+	// The configuration afterwards.
+	code, body, err := r.n.Mux.Do("GET", "/control/blocked_services/get", nil)
+	if err != nil {
+		if hp, ok := err.(*env.HandlerPanic); ok {
+			return kernel.Violationf("api-panic", "%v", hp)
+		}
+		return err
+	}
+	var final getResp
+	if code != http.StatusOK || json.Unmarshal(body, &final) != nil {
+		return kernel.Violationf("json-roundtrip-changed", "op %d after overlapped requests: GET blocked_services/get -> %d %s", i, code, body)
+	}
+
+	// One serial order must explain everything.
+	var after Sched
+	var order []int
+	var harnessErr error
+	found := permutations(len(parts), func(perm []int) bool {
+		st := r.glob.s
+		for _, j := range perm {
+			p, o := &parts[j], &outs[j]
+			switch p.Kind {
+			case "put":
+				st = *p.S
+			case "legacy_set":
+				st.IDs = p.IDs
+			case "get":
+				var g getResp
+				if json.Unmarshal(o.body, &g) != nil || compareJSON(g.Schedule, &st) != "" || !sameIDs(g.IDs, st.IDs) {
+					return false
+				}
+			case "list":
+				var l []string
+				if json.Unmarshal(o.body, &l) != nil || !sameIDs(l, st.IDs) {
+					return false
+				}
+			case "query":
+				if p.Who == "client" {
+					continue
+				}
+				loc, err := r.loc(st.Zone)
+				if err != nil {
+					harnessErr = err
+					return true
+				}
+				if o.blocked != r.wantBlocked(&st, loc, p.Name, now) {
+					return false
+				}
+			}
+		}
+		if compareJSON(final.Schedule, &st) != "" || !sameIDs(final.IDs, st.IDs) {
+			return false
+		}
+		after, order = st, append([]int(nil), perm...)
+		return true
+	})
+	if harnessErr != nil {
+		return harnessErr
+	}
+	c.Eventf("par seed=%d pct=%d [%s] -> %s order=%v steps=%d", op.Seed, op.Pct, strings.Join(log, "; "), bytes.TrimSpace(body), order, res.Steps)
+	if !found {
+		var b strings.Builder
+		for j := range parts {
+			fmt.Fprintf(&b, "  request %d: %s -> ", j, describePart(&parts[j]))
+			if parts[j].Kind == "query" {
+				fmt.Fprintf(&b, "%s\n", blockedWord(outs[j].blocked))
+			} else {
+				fmt.Fprintf(&b, "%d %s\n", outs[j].code, bytes.TrimSpace(outs[j].body))
+			}
+		}
+		return kernel.Violationf("overlap-no-serial-order", "op %d at %s: %d blocked-services requests were in progress at the same time (schedule seed %d, %d%%); every one of them was answered as shown, but no order of them, applied to the configuration before (%v), gives these answers and the configuration GET get reports afterwards (an update replaces ids and schedule, the list-only set replaces the ids and leaves the schedule alone):\n%s  afterwards: %s",
+			i, now.UTC().Format(time.RFC3339Nano), len(parts), op.Seed, op.Pct, r.glob.s, b.String(), bytes.TrimSpace(body))
+	}
+	loc, err := r.loc(after.Zone)
+	if err != nil {
+		return err
+	}
+	r.glob = mstate{s: after, loc: loc}
+	r.modified = int(r.n.Modified.Load())
+	c.Probe("par_ok")
+	kinds := map[string]int{}
+	slow := false
+	for j := range parts {
+		kinds[parts[j].Kind]++
+		slow = slow || parts[j].Chunk > 0
+	}
+	if kinds["put"] > 0 && kinds["legacy_set"] > 0 {
+		c.Probe("par_put_with_legacy_set")
+	}
+	if kinds["get"]+kinds["list"] > 0 {
+		c.Probe("par_with_read")
+	}
+	if kinds["query"] > 0 {
+		c.Probe("par_with_query")
+	}
+	if slow {
+		c.Probe("par_body_in_pieces")
+	}
+	for k := range order {
+		if order[k] != k {
+			c.Probe("par_order_not_as_listed")
+			break
+		}
+	}
+	return r.readBack(fmt.Sprintf("op %d after overlapped requests", i), "json-roundtrip-changed")
+}
+
 func (r *runner) apply(i int, op Op) error {
 	c := r.c
 	switch op.Kind {
@@ -1243,6 +1706,8 @@ func (r *runner) apply(i int, op Op) error {
 		return nil
 	case "restart":
 		return r.restart(i, 0)
+	case "par":
+		return r.par(i, op)
 	}
 	return fmt.Errorf("harness: unknown op %q", op.Kind)
 }
@@ -1313,6 +1778,7 @@ func Run(t *testing.T, scAny any, c *kernel.Ctx) error {
 		return nil
 	}
 	dnsnode.InitProcess()
+	sched.Init()
 	dir, err := kernel.TempDir("c18")
 	if err != nil {
 		return err
@@ -1377,7 +1843,7 @@ func Run(t *testing.T, scAny any, c *kernel.Ctx) error {
 var Prop = &kernel.Property{
 	ID:    "C18",
 	Level: "exploration",
-	Rule: "seeded cases (rapid): 1-2 zones drawn from every TZif file under /usr/share/zoneinfo found at run time (60% from a list of zones with midnight / 30-minute / 2-hour transitions and 30/45-minute offsets), a global and a per-client weekly schedule with whole-minute ranges (empty, full day, from 00:00, until 24:00, small hours, late evening, quarter hours), 5-30 (thorough: -50) strictly increasing instants between 2000 and 2037 on 2-8 anchor days (70% days of an offset transition of the zone, found by scanning offsets with package time) aimed at range edges, local midnight and the transition instant with offsets of 0, 1 ms, 1 s, 1 min, 30 min, 1 h; at each instant a query for a blocked-service domain from the global or the client address; between them valid PUTs, sets of the id list through the deprecated list-only POST /control/blocked_services/set (which must leave the schedule alone; read back through GET get and GET list), client updates, invalid JSON/YAML schedules (negative, inverted, beyond 24h, not whole minutes, broken documents) and restarts through YAML; " +
+	Rule: "seeded cases (rapid): 1-2 zones drawn from every TZif file under /usr/share/zoneinfo found at run time (60% from a list of zones with midnight / 30-minute / 2-hour transitions and 30/45-minute offsets), a global and a per-client weekly schedule with whole-minute ranges (empty, full day, from 00:00, until 24:00, small hours, late evening, quarter hours), 5-30 (thorough: -50) strictly increasing instants between 2000 and 2037 on 2-8 anchor days (70% days of an offset transition of the zone, found by scanning offsets with package time) aimed at range edges, local midnight and the transition instant with offsets of 0, 1 ms, 1 s, 1 min, 30 min, 1 h; at each instant a query for a blocked-service domain from the global or the client address; between them valid PUTs, sets of the id list through the deprecated list-only POST /control/blocked_services/set (which must leave the schedule alone; read back through GET get and GET list), client updates, invalid JSON/YAML schedules (negative, inverted, beyond 24h, not whole minutes, broken documents) and restarts through YAML; also operations in which 2-4 requests of the blocked-services family (PUT update, legacy POST set, rejected PUT, GET get, GET list, at most one DNS query) are in progress at the same time, interleaved at lock boundaries and between pieces of their request bodies by the seeded cooperative scheduler (mode D): their answers and the configuration afterwards must equal the result of one serial order of them; " +
 		"non-trivial = the case executed at least one query the reference says must be blocked and one it says must be passed because of the pause, and the clock was advanced or jumped at least once; distinct = distinct scenario digests",
 	Gen: Gen,
 	New: func() any { return &Scenario{} },
@@ -1385,16 +1851,18 @@ var Prop = &kernel.Property{
 	NonTrivial: func(_ any, c *kernel.Ctx) bool {
 		return c.Probes["blocked_query"] > 0 && c.Probes["paused_query"] > 0 && c.Faults["clock_advance"]+c.Faults["clock_jump_while_down"] > 0
 	},
-	Real: []string{"internal/schedule (Weekly.Contains, JSON/YAML (un)marshalling, validation)", "internal/filtering (ApplyBlockedServices, ApplyAdditionalFiltering, blocked_services get/update handlers, WriteDiskConfig)", "internal/client.Storage (per-client blocked services, Update)", "internal/dnsforward request pipeline", "dnsproxy request path", "gopkg.in/yaml.v3 + golibs timeutil.Duration (configuration text)"},
+	Real: []string{"internal/schedule (Weekly.Contains, JSON/YAML (un)marshalling, validation)", "internal/filtering (ApplyBlockedServices, ApplyAdditionalFiltering, blocked_services get/list/set/update handlers, WriteDiskConfig; for the overlapped requests built from a copy of the tree whose lock operations go through the internal/verifyield seam)", "internal/client.Storage (per-client blocked services, Update)", "internal/dnsforward request pipeline", "dnsproxy request path", "gopkg.in/yaml.v3 + golibs timeutil.Duration (configuration text)"},
 	Stub: []string{"wall clock (synctest fake clock advanced to the generated instants)", "upstream resolver (logs every question)", "client socket", "query log and statistics (recorders)", "home's clients HTTP handler (its schedule handling - decode clientJSON, Clone, Storage.Update - is repeated by the harness)", "home's configuration file (only the filtering and clients sections, same types and tags)"},
 	Assumptions: []string{
 		"Go's package time and the host's zone database are the trusted base: the reference converts the instant with Time.In and reads weekday/hour/minute/second",
 		"a gap of more than 60 days between two operations is spent with the node shut down and restarted from its YAML (hourly filter-update ticks of an idle node are not simulated for decades)",
 		"a range with start == end != 0 is not generated (the statement does not say whether it is inverted)",
 		"the posix/ and right/ copies of the zone database are not used",
+		"overlapped requests: every admin request and every query takes effect at one moment between its start and its end, so any serial order of the overlapped requests is accepted and nothing else; the simulated clock stands still while they overlap; tasks switch only at lock operations of the repository's own code, at the simulated resolver and between pieces of a request body",
 	},
-	FaultKinds: []string{"clock_advance", "clock_jump_while_down", "restart", "live_schedule_change", "legacy_list_change", "invalid_schedule_submitted"},
+	FaultKinds: []string{"clock_advance", "clock_jump_while_down", "restart", "live_schedule_change", "legacy_list_change", "invalid_schedule_submitted", "overlapped_admin_requests"},
 	ProbeNames: []string{"paused_query", "blocked_query", "unrelated_name_query", "dst_day_query", "short_day_query", "long_day_query", "day_without_midnight_query", "query_after_transition_same_day",
 		"fractional_hour_offset_query", "query_within_1s_of_edge", "empty_range_query", "full_day_range_query", "client_schedule_query",
-		"put_ok", "legacy_set_ok", "legacy_set_over_schedule", "bad_set_rejected", "client_set_ok", "bad_put_rejected", "bad_client_rejected", "bad_yaml_rejected", "yaml_written_ok", "json_readback_ok"},
+		"put_ok", "legacy_set_ok", "legacy_set_over_schedule", "bad_set_rejected", "client_set_ok", "bad_put_rejected", "bad_client_rejected", "bad_yaml_rejected", "yaml_written_ok", "json_readback_ok",
+		"par_ok", "par_put_with_legacy_set", "par_with_read", "par_with_query", "par_body_in_pieces", "par_order_not_as_listed", "sched_steps", "sched_switches"},
 }
